@@ -1,0 +1,18 @@
+//go:build verif
+
+package main
+
+import "io"
+
+// VerifIO, when set, supplies the byte streams the language server talks over
+// instead of stdin/stdout. It exists for the model-checking harness only (build
+// tag "verif"): OS pipes cannot be observed by testing/synctest, an in-memory
+// pipe can.
+var VerifIO func() (io.Reader, io.Writer, io.Closer)
+
+func verifIO() (io.Reader, io.Writer, io.Closer) {
+	if VerifIO != nil {
+		return VerifIO()
+	}
+	return nil, nil, nil
+}
